@@ -2,7 +2,8 @@
    is exact.  Only statements, closed by [exact], with their assumptions printed.
    Strings are byte strings ([is_bytes]: every element below 256). *)
 From Coq Require Import List NArith Bool.
-From XV Require Import Lib.Sx Model.Base64 Model.Sasl Proofs.Base64P Proofs.SaslP.
+From XV Require Import Lib.Sx Model.Base64 Model.Sasl Model.SaslReply Proofs.Base64P Proofs.SaslP.
+From XV Require Model.Session Model.SessionSpec Proofs.SessionSpecP Proofs.SessionEvP Proofs.SaslSessionP Model.Parser Gen.Generated.
 Import ListNotations.
 Open Scope N_scope.
 
@@ -49,6 +50,27 @@ Theorem C14_foreign_child_ignored : forall k children user secret w r,
   auth_sasl_features k children user secret w r = ([], ErrPermanent).
 Proof. exact foreign_child_ignored. Qed.
 
+(* ... and one level up, on the children of <stream:features/> themselves: a mechanism is
+   advertised exactly when it is the character data of a SASL <mechanism/> child of a
+   <mechanisms/> child of the features that is itself in the SASL namespace.  A
+   <mechanisms/> element in another namespace, a <mechanism/> directly under the features
+   or a SASL list nested inside another child advertise nothing; several SASL lists in one
+   features element advertise all their mechanisms, in document order. *)
+Theorem C14_advertised_in_features : forall (nodes : list fnode) (m : str),
+  In m (advertised_in nodes) <->
+  exists children, In (s_ns_sasl, s_mechanisms, children) nodes /\ In (s_ns_sasl, s_mechanism, m) children.
+Proof. exact advertised_in_spec. Qed.
+
+Theorem C14_lists_concatenate : forall a b : list fnode,
+  advertised_in (a ++ b) = advertised_in a ++ advertised_in b.
+Proof. exact advertised_in_app. Qed.
+
+Theorem C14_nothing_advertised_nothing_sent : forall k nodes user secret w r,
+  (forall m children, In m (cred_mechs k) -> In (s_ns_sasl, s_mechanisms, children) nodes ->
+                      ~ In (s_ns_sasl, s_mechanism, m) children) ->
+  auth_sasl_nodes k nodes user secret w r = ([], ErrPermanent).
+Proof. exact nodes_no_sasl_list. Qed.
+
 (* Base64 decode inverts encode on every byte string ... *)
 Theorem C14_b64_roundtrip : forall l : str,
   is_bytes l = true -> b64_decode (b64_encode l) = Some l.
@@ -77,6 +99,22 @@ Theorem C14_wire_parses : forall k server user secret w r m,
   parse_auth (auth_element m (plain_payload user secret)) = Some (m, plain_payload user secret).
 Proof. exact wire_parses. Qed.
 
+(* A <failure/> reply to an element that was sent: exactly that element was written (it
+   names the first common mechanism) and the error is permanent because of the reply; any
+   other non-success reply (another packet, a read error) gives an error that is not the
+   permanent one. *)
+Theorem C14_failure_after_sending : forall k server user secret reason m,
+  first_common (cred_mechs k) server m ->
+  auth_sasl k server user secret WOk (RFailure reason)
+  = ([auth_element m (plain_payload user secret)], ErrPermanent).
+Proof. exact failure_after_sending. Qed.
+
+Theorem C14_other_reply_after_sending : forall k server user secret r m,
+  first_common (cred_mechs k) server m -> r = ROther \/ r = RReadErr ->
+  auth_sasl k server user secret WOk r
+  = ([auth_element m (plain_payload user secret)], ErrOther).
+Proof. exact other_reply_after_sending. Qed.
+
 (* A <failure/> reply is a permanent error (also when nothing was sent). *)
 Theorem C14_failure_permanent : forall k server user secret reason,
   snd (auth_sasl k server user secret WOk (RFailure reason)) = ErrPermanent.
@@ -87,6 +125,93 @@ Theorem C14_only_success_authenticates : forall k server user secret w r,
   snd (auth_sasl k server user secret w r) = Ok <->
   r = RSuccess /\ w = WOk /\ exists m, first_common (cred_mechs k) server m.
 Proof. exact only_success_authenticates. Qed.
+
+(* Which concrete element IS <success/>: the reply classified from the expanded name of a
+   complete element by Model/Parser.v (the model of stanza.NextPacket's switch nest).  Only
+   {urn:ietf:params:xml:ns:xmpp-sasl}success authenticates: a <success/> in any other
+   namespace, or any other name in the SASL namespace, never does. *)
+Theorem C14_only_sasl_success : forall k server user secret w n reason,
+  snd (auth_sasl k server user secret w (reply_of_name n reason)) = Ok ->
+  n = (Generated.ns_sasl, Parser.s_success).
+Proof. exact SaslSessionP.only_sasl_success_authenticates. Qed.
+
+(* ---- the session level: what Client.connect does with all this (Model/Session.v) ----
+   The session model has its own copy of the mechanism choice; it is the same function: *)
+Theorem C14_models_agree : forall creds server m,
+  Session.choose_mech creds server = choose_mech creds server /\
+  Session.implemented m = plain_family m /\
+  Session.mech_plain = s_PLAIN /\ Session.mech_oauth = s_XOAUTH2.
+Proof.
+  intros creds server m. split; [apply SaslSessionP.choose_mech_agree|]. repeat split.
+Qed.
+
+(* every <auth/> of every connection, whatever the server does, names the mechanism authSASL
+   chooses (so C14_mech_sound / C14_mech_by_kind speak about it) from the mechanism list of a
+   features element of THIS connection, and it is one the credential has *)
+Theorem C14_session_mechanism : forall cfg dial tls p script m,
+  In (Session.RAuth m) (Session.reqs (SessionSpecP.outs (Session.connect cfg dial tls p script))) ->
+  exists f, In (Session.SFeatures f) script /\
+    choose_mech (Session.c_mechs cfg) (Session.f_mechs f) = Some m /\ plain_family m = true /\
+    In m (Session.c_mechs cfg) /\ In m (Session.f_mechs f).
+Proof. exact SaslSessionP.connect_mechanism. Qed.
+
+(* no common (implemented) mechanism: the authentication step writes nothing and the error
+   is a permanent ConnError *)
+Theorem C14_session_none : forall cfg c p f s sn,
+  (choose_mech (Session.c_mechs cfg) (Session.f_mechs f) = None \/
+   exists m, choose_mech (Session.c_mechs cfg) (Session.f_mechs f) = Some m /\ plain_family m = false) ->
+  Session.step_auth cfg c p f s sn = ([], Session.Err true true, p).
+Proof. exact SaslSessionP.auth_none. Qed.
+
+(* the reply is anything but <success/> (failure, another element, malformed XML, closed
+   stream, nothing): exactly the <auth/> was written, nothing after it, the state held on
+   the Client is untouched, and the result is an error - the permanent one exactly for
+   <failure/> *)
+Theorem C14_session_only_success : forall cfg c p f s sn m,
+  choose_mech (Session.c_mechs cfg) (Session.f_mechs f) = Some m -> plain_family m = true ->
+  is_success s = false ->
+  Session.step_auth cfg c p f s sn
+  = ([Session.o c (Session.RAuth m) sn],
+     (if is_failure s then Session.Err true true else Session.Err false false), p).
+Proof. exact SaslSessionP.auth_not_success. Qed.
+
+(* ... and Client.connect hands exactly that on, on a clear-text stream and after STARTTLS:
+   the requests end with the <auth/>, the error is the one of the step (permanent for
+   <failure/>), nothing is announced, no session state changes *)
+Theorem C14_connect_not_success_clear : forall cfg tls p id f s2 m,
+  Session.c_insecure cfg = true -> Session.f_tls f = Session.TlsNone ->
+  choose_mech (Session.c_mechs cfg) (Session.f_mechs f) = Some m -> plain_family m = true ->
+  is_success s2 = false ->
+  let x := Session.client_connect cfg true tls p (Session.SHeader id :: Session.SFeatures f :: s2) in
+  Session.reqs (fst (fst (fst x))) = [Session.ROpen; Session.RAuth m] /\
+  SessionEvP.cres x = (if is_failure s2 then Session.Err true true else Session.Err false false) /\
+  SessionEvP.evs x = [] /\
+  snd (fst x) = Session.with_session (Session.set_flags p false false).
+Proof. exact SaslSessionP.connect_auth_reply_clear. Qed.
+
+Theorem C14_connect_not_success_tls : forall cfg p id f id1 f1 s5 m,
+  Session.f_tls f <> Session.TlsNone ->
+  choose_mech (Session.c_mechs cfg) (Session.f_mechs f1) = Some m -> plain_family m = true ->
+  is_success s5 = false ->
+  let x := Session.client_connect cfg true true p
+             (Session.SHeader id :: Session.SFeatures f :: Session.SProceed :: Session.SHeader id1 :: Session.SFeatures f1 :: s5) in
+  Session.reqs (fst (fst (fst x))) = [Session.ROpen; Session.RStartTls; Session.ROpen; Session.RAuth m] /\
+  SessionEvP.cres x = (if is_failure s5 then Session.Err true true else Session.Err false false) /\
+  SessionEvP.evs x = [] /\
+  snd (fst x) = Session.with_session (Session.set_flags p true true).
+Proof. exact SaslSessionP.connect_auth_reply_tls. Qed.
+
+(* in every connection, whatever the script: a request that follows an <auth/> was sent
+   after reading <success/>, and nothing else, from this server; and a connection that
+   succeeds has read a <success/> *)
+Theorem C14_after_auth_only_on_success : forall cfg dial tls p s w1 x y w2 m,
+  SessionSpecP.outs (Session.connect cfg dial tls p s) = w1 ++ x :: y :: w2 ->
+  Session.o_req x = Session.RAuth m -> Session.o_seen y = [Session.SSuccess].
+Proof. exact SaslSessionP.after_auth_only_on_success. Qed.
+
+Theorem C14_connect_ok_needs_success : forall cfg dial tls p s,
+  SessionSpecP.res (Session.connect cfg dial tls p s) = Session.Ok -> In Session.SSuccess s.
+Proof. exact SaslSessionP.connect_ok_needs_success. Qed.
 
 (* non-vacuity: user "a<b", secret "&" with NUL and a byte above 127, server
    offering SCRAM-SHA-1 (as "S") before PLAIN: one element, PLAIN, payload
@@ -102,7 +227,18 @@ Example C14_example :
      holding PLAIN: nothing is sent *)
   /\ auth_sasl_features CPassword
        [(s_ns_sasl, s_mechanism, [83]); ([117; 114; 110; 58; 120], s_mechanism, s_PLAIN)]
-       [97] [98] WOk RSuccess = ([], ErrPermanent).
+       [97] [98] WOk RSuccess = ([], ErrPermanent)
+  (* two SASL lists in one features element (SCRAM as "S" in the first, PLAIN in the second), a
+     <mechanisms/> in another namespace and a <mechanism/> directly under the features: PLAIN is
+     advertised by the second list only *)
+  /\ advertised_in [(s_ns_sasl, s_mechanisms, [(s_ns_sasl, s_mechanism, [83])]);
+                    ([117; 114; 110; 58; 120], s_mechanisms, [([117; 114; 110; 58; 120], s_mechanism, s_XOAUTH2)]);
+                    (s_ns_sasl, s_mechanism, []);
+                    (s_ns_sasl, s_mechanisms, [(s_ns_sasl, s_mechanism, s_PLAIN)])] = [[83]; s_PLAIN]
+  (* only the SASL <success/> is success *)
+  /\ reply_of_name (Generated.ns_sasl, Parser.s_success) [] = RSuccess
+  /\ reply_of_name (Generated.ns_client, Parser.s_success) [] = RReadErr
+  /\ reply_of_name (Generated.ns_sasl, Parser.s_failure) [] = RFailure [].
 Proof. repeat split; reflexivity. Qed.
 
 Print Assumptions C14_mech_sound.
@@ -111,9 +247,23 @@ Print Assumptions C14_written.
 Print Assumptions C14_none.
 Print Assumptions C14_advertised.
 Print Assumptions C14_foreign_child_ignored.
+Print Assumptions C14_advertised_in_features.
+Print Assumptions C14_lists_concatenate.
+Print Assumptions C14_nothing_advertised_nothing_sent.
 Print Assumptions C14_b64_roundtrip.
 Print Assumptions C14_payload_exact.
 Print Assumptions C14_b64_alphabet.
 Print Assumptions C14_wire_parses.
+Print Assumptions C14_failure_after_sending.
+Print Assumptions C14_other_reply_after_sending.
 Print Assumptions C14_failure_permanent.
 Print Assumptions C14_only_success_authenticates.
+Print Assumptions C14_only_sasl_success.
+Print Assumptions C14_models_agree.
+Print Assumptions C14_session_mechanism.
+Print Assumptions C14_session_none.
+Print Assumptions C14_session_only_success.
+Print Assumptions C14_connect_not_success_clear.
+Print Assumptions C14_connect_not_success_tls.
+Print Assumptions C14_after_auth_only_on_success.
+Print Assumptions C14_connect_ok_needs_success.
